@@ -90,8 +90,8 @@ func c27NewAlphabet() *c27Alphabet {
 	}
 	t := mcNet7.Epoch + uint64(time.Hour)
 	h12 := uint64(config.KernelNodePledgePeriodMinimum)
-	a.Times = []uint64{t, t + 1, t + h12, t + h12 + 1}
-	a.TNames = []string{"t", "t+1", "t+12h", "t+12h+1"}
+	a.Times = []uint64{t, t + 1, t + h12, t + h12 + 2}
+	a.TNames = []string{"t", "t+1", "t+12h", "t+12h+2"}
 	for op := c27Pledge; op <= c27Remove; op++ {
 		for s := 0; s < 3; s++ {
 			for p := 0; p < 2; p++ {
@@ -174,8 +174,12 @@ type c27Counters struct {
 	equalTsAccepted  atomic.Int64    // an accepted record sharing its timestamp with another signer's record
 	oooAccepted      [4]atomic.Int64 // accepted although stamped before the newest record
 	oooRejected      [4]atomic.Int64
-	boundaryRejected atomic.Int64 // out-of-order, newest record exactly at the end of the look-ahead, rejected
-	reRemoveInside   atomic.Int64 // second remove stamped between the node's accept and its first remove, rejected
+	boundaryRejected atomic.Int64    // out-of-order, newest record exactly at the end of the look-ahead, rejected
+	reRemoveInside   atomic.Int64    // second remove stamped between the node's accept and its first remove, rejected
+	beyondAccepted   [4]atomic.Int64 // stamped beyond the look-ahead (earlier than newest-12h) and recorded
+	beyondWrong      [4]atomic.Int64 // ... although the statement forbids it
+	beyondRejected   [4]atomic.Int64
+	pruned           atomic.Int64 // violating states, not expanded
 	mismatchReject   atomic.Int64 // rejected only because of the payee
 	naturalInput     atomic.Int64
 	fundedInput      atomic.Int64
@@ -408,7 +412,22 @@ func c27ErrClass(p any, err error) string {
 
 // check compares the durable history with the reference and evaluates the
 // implementation-independent invariants of the statement.
-func (s *c27State) check(report func(key, desc string)) {
+// c27Collapse replaces runs of one letter by "X+" (ARR, ARRR -> AR+).
+func c27Collapse(seq string) string {
+	out := []byte{}
+	for i := 0; i < len(seq); i++ {
+		if i > 0 && seq[i] == seq[i-1] && seq[i] != '!' {
+			if out[len(out)-1] != '+' {
+				out = append(out, '+')
+			}
+			continue
+		}
+		out = append(out, seq[i])
+	}
+	return string(out)
+}
+
+func (s *c27State) check(collapse bool, report func(key, desc string)) {
 	var all, latest []*common.Node
 	if p := verifmc.Catch(func() {
 		all = s.L.Store.ReadAllNodes(^uint64(0), true)
@@ -475,6 +494,9 @@ func (s *c27State) check(report func(key, desc string)) {
 		switch seq {
 		case "P", "PA", "PC", "PAR", "A", "AR":
 		default:
+			if collapse {
+				seq = c27Collapse(seq)
+			}
 			report("signer-lifecycle:"+seq, fmt.Sprintf("records of signer %s are %q (P=pledging A=accepted C=cancelled R=removed, !=payee changed): not one pledge/accept/cancel/remove lifecycle of one node; history [%s]", s.A.label(k), seq, s.A.render(got, false)))
 		}
 	}
@@ -487,13 +509,14 @@ type c27Flags struct {
 	OutOfOrder bool // stamped before the newest record
 	Boundary   bool // the newest record is exactly at timestamp + 12h (last one the look-ahead still reads)
 	Inside     bool // stamped between two records of the event's own signer
+	Beyond     bool // stamped earlier than newest - 12h: the write functions do not read the newest record(s)
 }
 
 // enabled is the driver precondition on timestamps. They are NOT monotone: an
-// event may be stamped before records that already exist, as long as
-//   - the newest record is still inside the code's look-ahead
-//     (timestamp + KernelNodeAcceptPeriodMinimum >= newest record): beyond it
-//     the write functions cannot see the newer records at all,
+// event may be stamped before records that already exist — inside the code's
+// look-ahead (timestamp + KernelNodeAcceptPeriodMinimum >= newest record,
+// boundary included) or beyond it (Beyond: the write functions do not read the
+// newer records at all) — as long as
 //   - it is stamped after the record it acts upon (remove: the signer's newest
 //     ACCEPTED record; accept/cancel: its newest PLEDGING record; when there is
 //     no such record, or for a pledge, the signer's first record), and
@@ -527,9 +550,6 @@ func (a *c27Alphabet) enabled(hist []c27Rec, e int) (ok bool, f c27Flags) {
 			above = r.Ts
 		}
 	}
-	if ts+uint64(config.KernelNodeAcceptPeriodMinimum) < newest {
-		return false, f
-	}
 	bound := acted
 	if bound == 0 {
 		bound = first
@@ -540,6 +560,7 @@ func (a *c27Alphabet) enabled(hist []c27Rec, e int) (ok bool, f c27Flags) {
 	f.OutOfOrder = ts < newest
 	f.Boundary = ts+uint64(config.KernelNodeAcceptPeriodMinimum) == newest
 	f.Inside = above > 0
+	f.Beyond = ts+uint64(config.KernelNodeAcceptPeriodMinimum) < newest
 	return true, f
 }
 
@@ -555,8 +576,14 @@ func (s *c27State) apply(e int, replaying bool, report func(key, desc string)) (
 	if !ok {
 		return false, false
 	}
+	// every violation that arises for an event stamped beyond the look-ahead
+	// has its own canonical key (suffix), distinct from the in-window classes
 	order := ""
-	if flags.OutOfOrder {
+	if flags.Beyond {
+		order = ":beyond-lookahead"
+		inner := report
+		report = func(key, desc string) { inner(key+order, desc) }
+	} else if flags.OutOfOrder {
 		order = ":out-of-order"
 	}
 	allowed, why := s.allows(ev.Op, signer, payee)
@@ -589,11 +616,20 @@ func (s *c27State) apply(e int, replaying bool, report func(key, desc string)) (
 			if flags.EqualTs {
 				s.N.equalTsAccepted.Add(1)
 			}
-			if flags.OutOfOrder {
+			if flags.Beyond {
+				s.N.beyondAccepted[ev.Op].Add(1)
+				if !allowed {
+					s.N.beyondWrong[ev.Op].Add(1)
+				}
+			} else if flags.OutOfOrder {
 				s.N.oooAccepted[ev.Op].Add(1)
 			}
 			if !allowed {
-				report("accepted-"+op+":"+why+order, fmt.Sprintf("%s was recorded although the statement forbids it (%s); history before: [%s]", s.A.name(e), why, s.A.render(c27Sort(s.Hist[:len(s.Hist)-1]), false)))
+				k := "accepted-" + op + ":" + why
+				if !flags.Beyond {
+					k += order
+				}
+				report(k, fmt.Sprintf("%s was recorded although the statement forbids it (%s); history before: [%s]", s.A.name(e), why, s.A.render(c27Sort(s.Hist[:len(s.Hist)-1]), false)))
 			}
 			s.canonical(signer)
 		}
@@ -604,7 +640,9 @@ func (s *c27State) apply(e int, replaying bool, report func(key, desc string)) (
 		if why == "payee-mismatch" {
 			s.N.mismatchReject.Add(1)
 		}
-		if flags.OutOfOrder {
+		if flags.Beyond {
+			s.N.beyondRejected[ev.Op].Add(1)
+		} else if flags.OutOfOrder {
 			s.N.oooRejected[ev.Op].Add(1)
 			if flags.Boundary {
 				s.N.boundaryRejected.Add(1)
@@ -622,7 +660,7 @@ func (s *c27State) apply(e int, replaying bool, report func(key, desc string)) (
 		}
 	}
 	if !replaying {
-		s.check(report)
+		s.check(flags.Beyond, report)
 	}
 	return true, accepted
 }
@@ -712,7 +750,8 @@ func c27Reproduces(c *verifmc.Check, a *c27Alphabet, hist []int, e int, key stri
 // raw NODESTATEQUEUE dump after every rejection) the same instance then tries
 // the next event, and a new instance is only built after an accepted event.
 // Every violation is re-run 5x on a fresh instance with only history+event
-// (ViolationChecked) before it is reported.
+// (ViolationChecked) before it is reported; the state it leads to is not
+// expanded (its record set already breaks the invariants).
 func c27BFS(c *verifmc.Check, a *c27Alphabet, n *c27Counters, maxDepth int) (states, transitions int64, depth int) {
 	seen := map[string]struct{}{}
 	root := c27New(a, c, n)
@@ -752,7 +791,9 @@ func c27BFS(c *verifmc.Check, a *c27Alphabet, n *c27Counters, maxDepth int) (sta
 					}
 				}
 				nh := append(append(make([]int, 0, len(node.hist)+1), node.hist...), e)
+				violated := false
 				enabled, accepted := s.apply(e, false, func(key, desc string) {
+					violated = true
 					if _, dup := reported.LoadOrStore(key, true); dup {
 						return
 					}
@@ -765,9 +806,15 @@ func c27BFS(c *verifmc.Check, a *c27Alphabet, n *c27Counters, maxDepth int) (sta
 				c.AddTrans(1)
 				c.AddTraces(1)
 				c.Eval(1)
-				if accepted {
+				if accepted && !violated {
 					keys[ni*ne+e] = s.key()
 					recs[ni*ne+e] = append([]c27Rec{}, s.Hist...)
+				}
+				if violated {
+					// a state in which the oracle failed is reported, not expanded
+					n.pruned.Add(1)
+				}
+				if accepted || violated {
 					s.L.Close()
 					s = nil
 				}
@@ -807,10 +854,9 @@ func TestMC_C27(t *testing.T) {
 	defer c.Finish()
 	a := c27NewAlphabet()
 	n := &c27Counters{}
-	c.SetRule("BFS over all sequences of node operations {pledge, accept, cancel, remove}(signer, payee)@ts with signer in a pool of 3 new keys, payee in a pool of 2 (so accept/cancel/remove carry keys that match or do not match the record), plus remove (matching / mismatching payee) and re-pledge of one genesis node; ts in {t, t+1, t+12h, t+12h+1}, NOT monotone: an event may be stamped before, at (equal timestamps across signers are forced) or after the newest record, provided the newest record is within the 12h look-ahead of the write functions (ts+12h >= newest, boundary included), the event is stamped after the record it acts upon (remove: the signer's ACCEPTED record, accept/cancel: its PLEDGING record, otherwise the signer's first record) and does not reuse a timestamp of its own signer; so e.g. a second remove is offered between a node's accept and its first remove. The reference (latest record per signer by timestamp + the statement's rules) and all invariants are evaluated on the SET of records, independent of arrival order. Every event is a real node transaction (output type + Extra = signer||payee) finalized by LockInputs(fork) + WriteTransaction + WriteSnapshot without Validate, so valid and invalid operations reach writeNodePledge/Accept/Cancel/Remove through the real writeUTXO dispatch; it spends the output the operation names when that exists and is unspent (pledge output for accept/cancel, accept output for remove), otherwise a 13439 XIN wallet output from a custodian-signed deposit. Canonical state = the durable history (ts, signer, payee, state), identified with the shortest history of accepted events; successors are computed on instances that replayed that history; a rejected event must leave the NODESTATEQUEUE dump unchanged (checked), is a self-loop, and the same instance then tries the next event, a new instance is built after every accepted event; every violation is re-run 5x on a fresh instance with history+event only. Reference model = list of records + the statement's rules; oracle evaluated after every event")
+	c.SetRule("BFS over all sequences of node operations {pledge, accept, cancel, remove}(signer, payee)@ts with signer in a pool of 3 new keys, payee in a pool of 2 (so accept/cancel/remove carry keys that match or do not match the record), plus remove (matching / mismatching payee) and re-pledge of one genesis node; ts in {t, t+1, t+12h, t+12h+2}, NOT monotone: an event may be stamped before, at (equal timestamps across signers are forced) or after the newest record — inside the 12h look-ahead of the write functions (ts+12h >= newest, boundary t vs t+12h included) or beyond it (t and t+1 vs t+12h+2: the write functions do not read the newest records) — provided it is stamped after the record it acts upon (remove: the signer's ACCEPTED record, accept/cancel: its PLEDGING record, otherwise the signer's first record) and does not reuse a timestamp of its own signer; so e.g. a second remove is offered between a node's accept and its first remove, and an accept/cancel between a pledge and its accept/cancel. Violations of events stamped beyond the look-ahead carry the key suffix :beyond-lookahead (lifecycle strings with runs collapsed, ARR -> AR+). A state in which the oracle failed is reported and not expanded. The reference (latest record per signer by timestamp + the statement's rules) and all invariants are evaluated on the SET of records, independent of arrival order. Every event is a real node transaction (output type + Extra = signer||payee) finalized by LockInputs(fork) + WriteTransaction + WriteSnapshot without Validate, so valid and invalid operations reach writeNodePledge/Accept/Cancel/Remove through the real writeUTXO dispatch; it spends the output the operation names when that exists and is unspent (pledge output for accept/cancel, accept output for remove), otherwise a 13439 XIN wallet output from a custodian-signed deposit. Canonical state = the durable history (ts, signer, payee, state), identified with the shortest history of accepted events; successors are computed on instances that replayed that history; a rejected event must leave the NODESTATEQUEUE dump unchanged (checked), is a self-loop, and the same instance then tries the next event, a new instance is built after every accepted event; every violation is re-run 5x on a fresh instance with history+event only. Reference model = list of records + the statement's rules; oracle evaluated after every event")
 	c.Assume(
 		"storage layer only: common.Validate (validateNode*) and the kernel's validateNode*Snapshot are not called; the full layer of DESIGN.md C27 (same events through validation, timestamps going backwards or leaving the hour windows) is out of scope of this check",
-		"out-of-order timestamps stay inside the look-ahead of the write functions: timestamp + KernelNodeAcceptPeriodMinimum (12h) >= newest record. Further back the functions do not read the newer records at all (e.g. a second remove stamped more than 12h before the first one finds the node ACCEPTED and is recorded on the unchanged tree); the storage layer relies on the kernel's timestamp rules there, which is the full layer of C27",
 		"an operation is stamped after the record it acts upon (the transaction it spends is finalized earlier) and never reuses a timestamp of its own signer (the record key is (timestamp, signer); the kernel layer never produces an overwrite)",
 		"signatures, input ownership and amounts of the node transactions are not examined by the storage layer; Badger transactions are atomic",
 		"one snapshot per node transaction, written on a genesis chain's head round",
@@ -835,8 +881,8 @@ func TestMC_C27(t *testing.T) {
 	func() {
 		s := c27New(a, c, n)
 		defer s.L.Close()
-		s.check(func(key, desc string) { c.Violation("genesis:"+key, desc, map[string]any{"history": []string{}}) })
-		for _, name := range []string{"pledge(S0,P0)@t", "accept(S0,P0)@t+1", "remove(S0,P0)@t+12h", "pledge(S1,P1)@t+12h", "cancel(S1,P1)@t+12h+1", "remove(G,PG)@t+12h+1"} {
+		s.check(false, func(key, desc string) { c.Violation("genesis:"+key, desc, map[string]any{"history": []string{}}) })
+		for _, name := range []string{"pledge(S0,P0)@t", "accept(S0,P0)@t+1", "remove(S0,P0)@t+12h", "pledge(S1,P1)@t+12h", "cancel(S1,P1)@t+12h+2", "remove(G,PG)@t+12h+2"} {
 			enabled, accepted := s.apply(a.find(name), false, func(key, desc string) {
 				c.Violation(key, desc, map[string]any{"history": "canonical", "event": name})
 			})
@@ -864,6 +910,17 @@ func TestMC_C27(t *testing.T) {
 		oooA += n.oooAccepted[op].Load()
 		oooR += n.oooRejected[op].Load()
 	}
+	var byA, byR, byW int64
+	for op, name := range c27OpNames {
+		c.Set("beyond_lookahead_recorded_"+name, n.beyondAccepted[op].Load())
+		c.Set("beyond_lookahead_recorded_though_forbidden_"+name, n.beyondWrong[op].Load())
+		c.Set("beyond_lookahead_rejected_"+name, n.beyondRejected[op].Load())
+		byA += n.beyondAccepted[op].Load()
+		byR += n.beyondRejected[op].Load()
+		byW += n.beyondWrong[op].Load()
+	}
+	c.Set("beyond_lookahead_recorded_though_forbidden_total", byW)
+	c.Set("violating_states_not_expanded", n.pruned.Load())
 	c.Set("out_of_order_rejected_at_lookahead_boundary", n.boundaryRejected.Load())
 	c.Set("second_remove_between_accept_and_first_remove_rejected", n.reRemoveInside.Load())
 	c.Set("events_spending_the_named_output", n.naturalInput.Load())
@@ -879,6 +936,10 @@ func TestMC_C27(t *testing.T) {
 		c.Require(n.mismatchReject.Load() > 0, "no rejection for mismatching payee")
 		c.Require(oooA > 0 && oooR > 0, "out-of-order events: accepted %d rejected %d", oooA, oooR)
 		c.Require(n.oooRejected[c27Remove].Load() > 0 && n.oooAccepted[c27Remove].Load() > 0 && n.oooAccepted[c27Pledge].Load() > 0, "out-of-order removes / pledges not covered")
+		for op, name := range c27OpNames {
+			c.Require(n.beyondAccepted[op].Load()+n.beyondRejected[op].Load() > 0, "%s never offered beyond the look-ahead", name)
+		}
+		c.Require(byA > 0 && byR > 0, "beyond-lookahead events: recorded %d rejected %d", byA, byR)
 		c.Require(n.reRemoveInside.Load() > 0, "no second remove stamped between a node's accept and its first remove")
 		c.Require(n.boundaryRejected.Load() > 0, "look-ahead boundary (newest record at ts+12h) not exercised")
 	}
